@@ -56,6 +56,7 @@ pub enum Op {
     Obs { w: usize },
     DropWorld { w: usize },
     Query { w: usize, q: usize, path: String, h: HRef, n: usize },
+    Cont(crate::containers::COp),
 }
 
 fn kstr(k: &Option<usize>) -> String {
@@ -111,10 +112,14 @@ impl Op {
             Op::Obs { w } => format!("obs W{}", w),
             Op::DropWorld { w } => format!("drop W{}", w),
             Op::Query { w, q, path, h, n } => format!("query W{} k={} path={} h={} n={}", w, q, path, h.show(), n),
+            Op::Cont(c) => c.show(),
         }
     }
 
     pub fn parse(line: &str) -> Op {
+        if let Some(c) = crate::containers::COp::parse(line) {
+            return Op::Cont(c);
+        }
         let toks: Vec<&str> = line.split_whitespace().collect();
         let w: usize = toks
             .get(1)
@@ -181,6 +186,9 @@ pub struct Ctx {
     cur_sub: usize,
     /// one `PreparedQuery` per menu entry, shared by all worlds of the history (C17)
     prepared: HashMap<usize, Box<dyn std::any::Any>>,
+    pub containers: crate::containers::Containers,
+    /// annotation lines produced by the last op (hooked container state)
+    pub notes: Vec<String>,
     type_ids: HashMap<TypeId, usize>,
     pub stats: Stats,
 }
@@ -270,6 +278,8 @@ impl Ctx {
             cur_op: 0,
             cur_sub: 0,
             prepared: HashMap::new(),
+            containers: Default::default(),
+            notes: Vec::new(),
             type_ids: type_id_table(),
             stats: Stats::default(),
         }
@@ -303,6 +313,36 @@ impl Ctx {
 
     pub fn world(&mut self, w: usize) -> &mut World {
         self.worlds.get_mut(w).and_then(|x| x.as_mut()).expect("harness: no such world")
+    }
+
+    /// the containers an op needs exist and have the right kind (shrunk histories may have lost them)
+    pub fn container_ready(&self, c: &crate::containers::COp) -> bool {
+        use crate::containers::{BBox, COp, PBox};
+        let b = |i: &usize| self.containers.builders.get(i);
+        match c {
+            COp::BNew { .. } | COp::QNew { .. } | COp::PNew { .. } => true,
+            COp::BAdd { b: i, .. } | COp::BAddBundle { b: i, .. } | COp::BObs { b: i } | COp::BClear { b: i } => {
+                matches!(b(i), Some(BBox::Plain(_)) | Some(BBox::Clone(_)))
+            }
+            COp::BSpawn { b: i, w } => matches!(b(i), Some(BBox::Plain(_))) && self.has_world(*w),
+            COp::BBuildDrop { b: i } => matches!(b(i), Some(BBox::Plain(_))),
+            COp::BBuild { b: i, .. } => matches!(b(i), Some(BBox::Clone(_))),
+            COp::CSpawn { b: i, w } => matches!(b(i), Some(BBox::Built(_))) && self.has_world(*w),
+            COp::BClone { b: i, .. } => matches!(b(i), Some(BBox::Clone(_)) | Some(BBox::Built(_))),
+            COp::CBack { b: i, .. } => matches!(b(i), Some(BBox::Built(_))),
+            COp::BDrop { b: i } => b(i).is_some(),
+            COp::QSpawn { q, .. } | COp::QInsert { q, .. } | COp::QRemove { q, .. } | COp::QDespawn { q, .. }
+            | COp::QClear { q } | COp::QDrop { q } => self.containers.cmdbufs.contains_key(q),
+            COp::QRun { q, w } => self.containers.cmdbufs.contains_key(q) && self.has_world(*w),
+            COp::PPush { p, .. } | COp::PBuild { p } => matches!(self.containers.batches.get(p), Some(PBox::Builder(..))),
+            COp::PSpawn { p, w } => matches!(self.containers.batches.get(p), Some(PBox::Batch(_))) && self.has_world(*w),
+            COp::PSpawnAt { p, w, hs } => {
+                matches!(self.containers.batches.get(p), Some(PBox::Batch(_)))
+                    && self.has_world(*w)
+                    && hs.iter().all(|h| self.resolve(h).id() < 100_000)
+            }
+            COp::PDrop { p } => self.containers.batches.contains_key(p),
+        }
     }
 
     pub fn has_world(&self, w: usize) -> bool {
@@ -443,9 +483,15 @@ impl Ctx {
         self.cur_sub = 0;
         *self.stats.ops.entry(op.show().split(' ').next().unwrap().to_string()).or_default() += 1;
         let _ = take_drops();
+        self.notes.clear();
         let (lhs, res) = self.exec_inner(op);
         let drops = take_drops();
         let rhs = match op {
+            Op::Cont(crate::containers::COp::BObs { .. }) | Op::Cont(crate::containers::COp::PPush { .. }) => res,
+            Op::Cont(crate::containers::COp::QRun { .. }) => {
+                let new = if self.notes.first().map_or(false, |n| n.starts_with("new=")) { self.notes.remove(0) } else { "new=[]".into() };
+                format!("{} d={} {}", res, show_comps(&drops), new)
+            }
             Op::Obs { .. } | Op::NewWorld { .. } | Op::Query { .. } => res,
             _ => {
                 if res == "panic" {
@@ -679,6 +725,19 @@ impl Ctx {
                 (op.show(), format!("es={}", show_entities(&es)))
             }
             Op::Obs { w } => self.obs(*w),
+            Op::Cont(c) => {
+                let mut conts = std::mem::take(&mut self.containers);
+                let mut worlds = std::mem::take(&mut self.worlds);
+                let (lhs, res, handles, notes) = {
+                    let me: &Ctx = self;
+                    conts.exec(c, &mut worlds, &|h: &HRef| me.resolve(h))
+                };
+                self.containers = conts;
+                self.worlds = worlds;
+                self.push_handles(&handles);
+                self.notes = notes;
+                (lhs, res)
+            }
             Op::Query { w, q, path, h, n } => {
                 let e = self.resolve(h);
                 let hs = self.probe_handles(*w);
@@ -730,6 +789,8 @@ pub enum Profile {
     Batch,
     /// world mutations interleaved with queries through every access path (C08, C17)
     Query,
+    /// entity builders, command buffers and column batch builders driving a world (C11, C12, C13, C04)
+    Containers,
 }
 
 impl Gen {
@@ -848,8 +909,228 @@ impl Gen {
         (0..n).map(|_| self.bundle_for_types(&ts)).collect()
     }
 
+    fn cont_op(&mut self, ctx: &Ctx, w: usize) -> Op {
+        use crate::containers::{BBox, COp, PBox};
+        let c = &ctx.containers;
+        let pick_key = |rng: &mut Rng, keys: Vec<usize>| -> Option<usize> {
+            let mut k = keys;
+            k.sort();
+            rng.pick(&k).copied()
+        };
+        for _ in 0..20 {
+            let family = self.rng.weighted(&[40, 30, 30]);
+            match family {
+                0 => {
+                    // builders
+                    let plain: Vec<usize> = c.builders.iter().filter(|(_, b)| matches!(b, BBox::Plain(_))).map(|(k, _)| *k).collect();
+                    let clone: Vec<usize> = c.builders.iter().filter(|(_, b)| matches!(b, BBox::Clone(_))).map(|(k, _)| *k).collect();
+                    let built: Vec<usize> = c.builders.iter().filter(|(_, b)| matches!(b, BBox::Built(_))).map(|(k, _)| *k).collect();
+                    let fresh = (0..6).find(|i| !c.builders.contains_key(i));
+                    match self.rng.weighted(&[6, 30, 8, 14, 4, 8, 3, 6, 8, 5, 5, 3]) {
+                        0 => {
+                            if let Some(b) = fresh {
+                                return Op::Cont(COp::BNew { b, clone: self.rng.chance(55) });
+                            }
+                        }
+                        1 => {
+                            let mut all = plain.clone();
+                            all.extend(clone.iter());
+                            if let Some(b) = pick_key(&mut self.rng, all) {
+                                let t = self.rng.below(NTYPES);
+                                let v = if t >= 7 { 0 } else { self.fresh() };
+                                return Op::Cont(COp::BAdd { b, t, v });
+                            }
+                        }
+                        2 => {
+                            let mut all = plain.clone();
+                            all.extend(clone.iter());
+                            if let Some(b) = pick_key(&mut self.rng, all) {
+                                let k = self.rng.below(NBUNDLES);
+                                let bundle = self.bundle_for_types(&bundle_types(k));
+                                return Op::Cont(COp::BAddBundle { b, k, bundle });
+                            }
+                        }
+                        3 => {
+                            let mut all = plain.clone();
+                            all.extend(clone.iter());
+                            if let Some(b) = pick_key(&mut self.rng, all) {
+                                return Op::Cont(COp::BObs { b });
+                            }
+                        }
+                        4 => {
+                            let mut all = plain.clone();
+                            all.extend(clone.iter());
+                            if let Some(b) = pick_key(&mut self.rng, all) {
+                                return Op::Cont(COp::BClear { b });
+                            }
+                        }
+                        5 => {
+                            if let Some(b) = pick_key(&mut self.rng, plain) {
+                                return Op::Cont(COp::BSpawn { b, w });
+                            }
+                        }
+                        6 => {
+                            if let Some(b) = pick_key(&mut self.rng, plain) {
+                                return Op::Cont(COp::BBuildDrop { b });
+                            }
+                        }
+                        7 => {
+                            if let (Some(b), Some(into)) = (pick_key(&mut self.rng, clone), fresh) {
+                                return Op::Cont(COp::BBuild { b, into });
+                            }
+                        }
+                        8 => {
+                            if let Some(b) = pick_key(&mut self.rng, built) {
+                                return Op::Cont(COp::CSpawn { b, w });
+                            }
+                        }
+                        9 => {
+                            let mut all = clone.clone();
+                            all.extend(built.iter());
+                            if let (Some(b), Some(into)) = (pick_key(&mut self.rng, all), fresh) {
+                                return Op::Cont(COp::BClone { b, into });
+                            }
+                        }
+                        10 => {
+                            if let (Some(b), Some(into)) = (pick_key(&mut self.rng, built), fresh) {
+                                return Op::Cont(COp::CBack { b, into });
+                            }
+                        }
+                        _ => {
+                            if let Some(b) = pick_key(&mut self.rng, c.builders.keys().copied().collect()) {
+                                return Op::Cont(COp::BDrop { b });
+                            }
+                        }
+                    }
+                }
+                1 => {
+                    // command buffers
+                    let qs: Vec<usize> = c.cmdbufs.keys().copied().collect();
+                    let fresh = (0..2).find(|i| !c.cmdbufs.contains_key(i));
+                    match self.rng.weighted(&[5, 22, 22, 14, 10, 14, 3, 2]) {
+                        0 => {
+                            if let Some(q) = fresh {
+                                return Op::Cont(COp::QNew { q });
+                            }
+                        }
+                        1 => {
+                            if let Some(q) = pick_key(&mut self.rng, qs) {
+                                let (k, bundle) = self.random_bundle();
+                                return Op::Cont(COp::QSpawn { q, k, bundle });
+                            }
+                        }
+                        2 => {
+                            if let Some(q) = pick_key(&mut self.rng, qs) {
+                                let (h, _) = self.pick_handle(ctx, w);
+                                let (k, bundle) = self.random_bundle();
+                                return Op::Cont(COp::QInsert { q, h, k, bundle });
+                            }
+                        }
+                        3 => {
+                            if let Some(q) = pick_key(&mut self.rng, qs) {
+                                let (h, ts) = self.pick_handle(ctx, w);
+                                let k = self.menu_subset(&ts, false).unwrap_or_else(|| self.rng.below(NBUNDLES));
+                                return Op::Cont(COp::QRemove { q, h, k });
+                            }
+                        }
+                        4 => {
+                            if let Some(q) = pick_key(&mut self.rng, qs) {
+                                let (h, _) = self.pick_handle(ctx, w);
+                                return Op::Cont(COp::QDespawn { q, h });
+                            }
+                        }
+                        5 => {
+                            if let Some(q) = pick_key(&mut self.rng, qs) {
+                                return Op::Cont(COp::QRun { q, w });
+                            }
+                        }
+                        6 => {
+                            if let Some(q) = pick_key(&mut self.rng, qs) {
+                                return Op::Cont(COp::QClear { q });
+                            }
+                        }
+                        _ => {
+                            if let Some(q) = pick_key(&mut self.rng, qs) {
+                                return Op::Cont(COp::QDrop { q });
+                            }
+                        }
+                    }
+                }
+                _ => {
+                    // column batches
+                    let builders: Vec<usize> = c.batches.iter().filter(|(_, b)| matches!(b, PBox::Builder(..))).map(|(k, _)| *k).collect();
+                    let built: Vec<usize> = c.batches.iter().filter(|(_, b)| matches!(b, PBox::Batch(_))).map(|(k, _)| *k).collect();
+                    let fresh = (0..3).find(|i| !c.batches.contains_key(i));
+                    match self.rng.weighted(&[10, 40, 16, 14, 8, 4]) {
+                        0 => {
+                            if let Some(p) = fresh {
+                                let mut decl = self.random_types(3);
+                                if self.rng.chance(15) && !decl.is_empty() {
+                                    decl.push(decl[0]);
+                                }
+                                let n = *self.rng.pick(&[0usize, 1, 2, 2, 3, 3, 5]).unwrap();
+                                return Op::Cont(COp::PNew { p, decl, n });
+                            }
+                        }
+                        1 => {
+                            if let Some(p) = pick_key(&mut self.rng, builders) {
+                                if let Some(PBox::Builder(b, decl)) = c.batches.get(&p) {
+                                    let (cols, target) = b.verif_dump();
+                                    // mostly push to a declared column that still has room, in pieces
+                                    let t = if self.rng.chance(90) && !decl.is_empty() {
+                                        let open: Vec<usize> = decl
+                                            .iter()
+                                            .copied()
+                                            .filter(|t| {
+                                                let tid = crate::with_type!(*t, T, std::any::TypeId::of::<T>());
+                                                cols.iter().find(|c| c.0 == tid).map_or(true, |c| c.1 < target)
+                                            })
+                                            .collect();
+                                        if !open.is_empty() && self.rng.chance(85) { open[self.rng.below(open.len())] } else { decl[self.rng.below(decl.len())] }
+                                    } else {
+                                        self.rng.below(NTYPES)
+                                    };
+                                    let k = 1 + self.rng.below(3);
+                                    let vals: Vec<u64> = (0..k).map(|_| if t >= 7 { 0 } else { self.fresh() }).collect();
+                                    return Op::Cont(COp::PPush { p, t, vals });
+                                }
+                            }
+                        }
+                        2 => {
+                            if let Some(p) = pick_key(&mut self.rng, builders) {
+                                return Op::Cont(COp::PBuild { p });
+                            }
+                        }
+                        3 => {
+                            if let Some(p) = pick_key(&mut self.rng, built) {
+                                return Op::Cont(COp::PSpawn { p, w });
+                            }
+                        }
+                        4 => {
+                            if let Some(p) = pick_key(&mut self.rng, built) {
+                                if let Some(PBox::Batch(_)) = c.batches.get(&p) {
+                                    // number of rows is not observable on ColumnBatch: skip unless tracked
+                                    let _ = p;
+                                }
+                            }
+                        }
+                        _ => {
+                            if let Some(p) = pick_key(&mut self.rng, c.batches.keys().copied().collect()) {
+                                return Op::Cont(COp::PDrop { p });
+                            }
+                        }
+                    }
+                }
+            }
+        }
+        Op::Flush { w }
+    }
+
     pub fn next_op(&mut self, ctx: &Ctx, nworlds: usize) -> Op {
         let w = if nworlds > 1 && self.rng.chance(25) { 1 } else { 0 };
+        if self.profile == Profile::Containers && self.rng.chance(70) {
+            return self.cont_op(ctx, w);
+        }
         let weights: [usize; 16] = match self.profile {
             //            spawn at  batch cb  cbat ins rem exch desp take clr fl  res  re  res_n obs
             Profile::Mixed => [18, 4, 3, 3, 2, 14, 10, 6, 11, 4, 1, 2, 1, 3, 2, 0],
@@ -857,6 +1138,7 @@ impl Gen {
             Profile::Reserve => [8, 4, 1, 3, 3, 10, 6, 3, 10, 3, 1, 4, 1, 18, 12, 0],
             Profile::Batch => [8, 8, 4, 16, 12, 6, 5, 2, 10, 2, 1, 2, 1, 3, 3, 0],
             Profile::Query => [14, 2, 3, 3, 1, 10, 8, 4, 8, 2, 1, 2, 1, 2, 1, 60],
+            Profile::Containers => [14, 3, 2, 2, 1, 10, 8, 4, 12, 3, 1, 2, 1, 4, 2, 0],
         };
         match self.rng.weighted(&weights) {
             0 => {
@@ -987,6 +1269,10 @@ pub fn run_history(
             queue.push((usize::MAX, Op::NewWorld { w }));
         }
     }
+    {
+        let lay: Vec<String> = layouts().iter().enumerate().map(|(i, (s, a))| format!("{}:{}:{}", i, s, a)).collect();
+        out.trace.push(format!("types [{}]", lay.join(",")));
+    }
     let mut produced = 0usize;
     let mut since_obs = 0usize;
     loop {
@@ -1012,6 +1298,22 @@ pub fn run_history(
                 queue.push((usize::MAX, Op::DropWorld { w }));
                 queue.push((usize::MAX, Op::Obs { w }));
             }
+            // every container still alive is dropped first (ledger)
+            let mut bs: Vec<usize> = ctx.containers.builders.keys().copied().collect();
+            bs.sort();
+            for b in bs {
+                queue.push((usize::MAX, Op::Cont(crate::containers::COp::BDrop { b })));
+            }
+            let mut qs: Vec<usize> = ctx.containers.cmdbufs.keys().copied().collect();
+            qs.sort();
+            for q in qs {
+                queue.push((usize::MAX, Op::Cont(crate::containers::COp::QDrop { q })));
+            }
+            let mut ps: Vec<usize> = ctx.containers.batches.keys().copied().collect();
+            ps.sort();
+            for p in ps {
+                queue.push((usize::MAX, Op::Cont(crate::containers::COp::PDrop { p })));
+            }
             continue;
         } else {
             break;
@@ -1024,6 +1326,7 @@ pub fn run_history(
             | Op::Despawn { w, .. } | Op::Take { w, .. } | Op::Clear { w } | Op::Flush { w } | Op::Reserve { w, .. }
             | Op::ReserveEntity { w } | Op::ReserveEntities { w, .. } | Op::Obs { w } | Op::DropWorld { w }
             | Op::Query { w, .. } => Some(*w),
+            Op::Cont(c) => c.world(),
         };
         if let Some(w) = w {
             if !ctx.has_world(w) {
@@ -1035,6 +1338,11 @@ pub fn run_history(
                 }
             }
         }
+        if let Op::Cont(c) = &op {
+            if !ctx.container_ready(c) {
+                continue;
+            }
+        }
         let opline = format!("@{} {}", opnum, op.show());
         log(&opline);
         out.ops.push(opline);
@@ -1042,6 +1350,9 @@ pub fn run_history(
         match r {
             Ok((lhs, rhs)) => {
                 out.trace.push(format!("{} => {}", lhs, rhs));
+                for n in ctx.notes.drain(..) {
+                    out.trace.push(n);
+                }
                 if let (Some(w), false) = (w, matches!(op, Op::Obs { .. } | Op::DropWorld { .. } | Op::Query { .. })) {
                     if let Some(s) = ctx.state_line(w) {
                         out.trace.push(s);
@@ -1057,6 +1368,7 @@ pub fn run_history(
                 for wd in ctx.worlds.drain(..) {
                     std::mem::forget(wd);
                 }
+                std::mem::forget(std::mem::take(&mut ctx.containers));
                 break;
             }
         }
